@@ -159,6 +159,10 @@ pub mod futures_env {
         #[verifier::external_body]
         pub fn push(&mut self, t: T, Ghost(id): Ghost<PartId>) ensures final(self).view() == old(self).view().push((id, t)) { unimplemented!() }
         #[verifier::external_body]
+        pub fn is_empty(&self) -> (r: bool) ensures r == (self.view().len() == 0) { unimplemented!() }
+        #[verifier::external_body]
+        pub fn len(&self) -> (r: usize) ensures r == self.view().len() { unimplemented!() }
+        #[verifier::external_body]
         pub fn next(&mut self) -> (r: Option<T>)
             ensures old(self).view().len() == 0 ==> (r is None && final(self).view() == old(self).view()),
                 old(self).view().len() > 0 ==> (r is Some && exists|i: int| 0 <= i < old(self).view().len()
